@@ -124,6 +124,9 @@ InitSt(R) == [i \in DOMAIN R.keys |->
        m == {j \in DOMAIN P.init : P.init[j].f = R.keys[i][1]
                  /\ [x \in DOMAIN P.init[j].args |-> ArgKey(P.init[j].args[x])] = R.keys[i][2]}
    IN IF m # {} THEN P.init[CHOOSE j \in m : TRUE].v ELSE Fl(P, R.keys[i][1]).default]
+\* TLC integers are 32-bit: behaviours are not expanded beyond states holding a number of large magnitude
+\* (the part of the property beyond this bound is not decided by the model; the harness does the same)
+SmallSt(s) == \A i \in DOMAIN s : IF s[i].k = "n" THEN Abs(s[i].n) <= 200 /\ s[i].d <= 200 ELSE TRUE
 Goal3(R, s) == All3({Cond3(R, R.P.goals[i], s, <<>>) : i \in DOMAIN R.P.goals})
 UnsatGoals3(R, s) == [i \in DOMAIN R.P.goals |-> Cond3(R, R.P.goals[i], s, <<>>)]
 \* the initial state must satisfy bounds and invariants: "T" ok, "F" rejected, "?" unspecified
